@@ -366,6 +366,22 @@ def payload_streams(tier):
     fbig = f.but(slice_size_scaler=8)
     for c0 in range(0, len(chunk), 12):
         out.append(("hq-extreme-%d" % c0, fbig, chunk[c0 : c0 + 12]))
+    # low delay with a luma block far longer than its coefficients (long, unaligned y_block_padding):
+    # every slice_y_length from "just the coefficients" up to the whole slice, three fill patterns
+    for sb in (9, 14, 23):
+        fpad = T(profile=B.PROFILE_LD, major_version=1, frame_width=2, frame_height=2, slices_x=1, dwt_depth=0, slice_bytes_numerator=sb, slice_bytes_denominator=1)
+        total = 8 * sb
+        lb = B.intlog2(total - 7)
+        avail = total - 7 - lb
+        chunk = []
+        for y_coeffs in ([0, 0, 0, 0], [1, -2, 0, 3], [5, 0, 0, 0]):
+            ybits = "".join(B.sint_bits(v) for v in y_coeffs)
+            for syl in range(len(ybits), avail + 1):
+                pad = ("10" * avail)[: syl - len(ybits)]
+                cb = ("0110111" * avail)[: avail - syl]
+                chunk.append({"qindex": 2, "slice_y_length": syl, "y_bits": ybits + pad, "c_bits": cb, "fill": "1"})
+        for c0 in range(0, len(chunk), 64):
+            out.append(("ld-ypad-sb%d-%d" % (sb, c0), fpad, chunk[c0 : c0 + 64]))
     fld = T(profile=B.PROFILE_LD, major_version=1, frame_width=4, frame_height=2, slices_x=1, dwt_depth=1, wavelet_index=1, slice_bytes_numerator=700, slice_bytes_denominator=1)
     nyl = B.slice_coeff_count(fld, "Y", 0, 0)
     chunk = []
